@@ -46,6 +46,9 @@ def build_group(osy, mesh, length_unit, box, rng, dtype="float64", extra_vector=
     dg["dx"] = osy.Array(values=(mesh["size"] * box).astype(dtype), unit=length_unit)
     dg["tag"] = osy.Array(values=np.arange(1, n + 1, dtype=float), unit="g/cm**3")
     dg["temp"] = osy.Array(values=rng.integers(1, 1000, size=n).astype(float), unit="K")
+    # integer-valued layers, as the loader produces them (level, cpu)
+    dg["itag"] = osy.Array(values=np.arange(1, n + 1, dtype="int64"))
+    dg["ilevel"] = osy.Array(values=np.asarray(mesh["level"]).astype("int32"))
     if extra_vector:
         comps = [rng.integers(-50, 50, size=n).astype(float) for _ in range(ndim)]
         dg["velocity"] = osy.Vector(*comps, unit="km/s")
